@@ -26,20 +26,20 @@ theorem Abs.forced_eq {α : Type} (a : Abs) (k : Abs → α) : a.forced k = k a 
   simp only [Abs.forced, withNat_eq, withBool_eq]
 
 mutual
-  theorem absRuleF_eq (cx : Ctx) (K : String) : ∀ r : Rule, absRuleF cx K r = absRule cx K r
-    | .optional a body => by simp only [absRuleF, absRule, absRulesF_eq cx K body]
-    | .joinAttr src sep p => by simp only [absRuleF, absRule, absRulesF_eq cx K sep]
-    | .elisionJoinAttr src sep p => by simp only [absRuleF, absRule, absRulesF_eq cx K sep]
-    | .layout mk => by simp only [absRuleF]
-    | .struct mk => by simp only [absRuleF]
-    | .text v p => by simp only [absRuleF]
-    | .attr s p => by simp only [absRuleF]
-    | .commentsAttr s p => by simp only [absRuleF]
-    | .operator a v p => by simp only [absRuleF]
-    | .elisionToken s v p => by simp only [absRuleF]
-  theorem absRulesF_eq (cx : Ctx) (K : String) : ∀ rs : List Rule, absRulesF cx K rs = absRules cx K rs
-    | [] => by simp only [absRulesF, absRules]
-    | r :: rs => by
+  theorem absRuleF_eq (cx : Ctx) (K : String) : ∀ (r : Rule) (p : Nat), absRuleF cx K p r = absRule cx K p r
+    | .optional a body, p => by simp only [absRuleF, absRule, absRulesF_eq cx K body]
+    | .joinAttr src sep q, p => by simp only [absRuleF, absRule, absRulesF_eq cx K sep, Abs.forced_eq]
+    | .elisionJoinAttr src sep q, p => by simp only [absRuleF, absRule, absRulesF_eq cx K sep, Abs.forced_eq]
+    | .layout mk, p => by simp only [absRuleF]
+    | .struct mk, p => by simp only [absRuleF]
+    | .text v q, p => by simp only [absRuleF]
+    | .attr s q, p => by simp only [absRuleF]
+    | .commentsAttr s q, p => by simp only [absRuleF]
+    | .operator a v q, p => by simp only [absRuleF]
+    | .elisionToken s v q, p => by simp only [absRuleF]
+  theorem absRulesF_eq (cx : Ctx) (K : String) : ∀ (rs : List Rule) (p : Nat), absRulesF cx K p rs = absRules cx K p rs
+    | [], p => by simp only [absRulesF, absRules]
+    | r :: rs, p => by
       simp only [absRulesF, absRules, absRuleF_eq cx K r, absRulesF_eq cx K rs, Abs.forced_eq]
 end
 
@@ -51,6 +51,26 @@ theorem withCert_eq {α : Type} (rs : RuleSet) (defs : Defs) : ∀ (n : Nat) (k 
     withCert rs defs n k = k (certIter rs defs n)
   | 0, k => rfl
   | n + 1, k => by simp only [withCert, withCert_eq rs defs n, forceCert_eq, certIter]
+
+theorem forceNats_eq {α : Type} : ∀ (l : List Nat) (k : List Nat → α), forceNats l k = k l
+  | [], k => rfl
+  | x :: xs, k => by simp only [forceNats, withNat_eq, forceNats_eq xs]
+
+theorem withCertW_eq {α : Type} (rs : RuleSet) (defs : Defs) : ∀ (n : Nat) (k : List (String × Abs) → α),
+    withCertW rs defs (allOcc defs 0) n k = k (certIter rs defs n)
+  | 0, k => rfl
+  | n + 1, k => by
+    simp only [withCertW, withCertW_eq rs defs n, forceCert_eq, certIter]
+    rfl
+
+theorem withCtx_eq {α : Type} (rs : RuleSet) (defs : Defs) (n : Nat) (k : Ctx → α) :
+    withCtx rs defs n k = k (mkCtx rs defs (certIter rs defs n)) := by
+  simp only [withCtx, forceNats_eq, withCertW_eq]
+  rfl
+
+theorem forceRects_eq {α : Type} : ∀ (l : List Rect) (k : List Rect → α), forceRects l k = k l
+  | [], k => rfl
+  | (a, b) :: rs, k => by simp only [forceRects, withNat_eq, forceRects_eq rs]
 
 theorem allNeedsF_eq (cx : Ctx) (defs : Defs) : allNeedsF cx defs = allNeeds cx defs := by
   simp only [allNeedsF, allNeeds, absRulesF_eq]
@@ -104,7 +124,7 @@ theorem sig_dropLineCont (hd : HData) (s : String) (h : sig s = .str) :
   simp only [String.toList_ofList, dropLineCont, hl, dropLineContAux, hb, Bool.false_eq_true, if_false]
 
 theorem prettyTyped (indent : Option String) (cert : List (String × Abs)) :
-    TypedCfg (prettyCfg indent) (mkCtx Gen.Rules.rs_indent cert) where
+    TypedCfg (prettyCfg indent) (mkCtx Gen.Rules.rs_indent Gen.Defs.definitions cert) where
   hooks := prettyCfg_noHooks indent
   tok := rfl
   tbl := rfl
@@ -116,7 +136,7 @@ theorem prettyTyped (indent : Option String) (cert : List (String × Abs)) :
   lit := Or.inl rfl
 
 theorem minifyTyped (d : Bool) (cert : List (String × Abs)) :
-    TypedCfg (minifyCfg d) (mkCtx (if d then Gen.Rules.rs_minify1 else Gen.Rules.rs_minify0) cert) := by
+    TypedCfg (minifyCfg d) (mkCtx (if d then Gen.Rules.rs_minify1 else Gen.Rules.rs_minify0) Gen.Defs.definitions cert) := by
   cases d
   all_goals exact {
     hooks := minifyCfg_noHooks _
